@@ -239,15 +239,52 @@ def r3_format_agreement(repo=None):
     return r
 
 
+def r4_subdir_per_file(repo=None):
+    r = Rule("C13.R4", "the sub-directory of every metadata file is recomputed from that file's own timestamp")
+    m = pyfront.mod("digital_metadata", repo)
+    q = W + "._sample_group_generator"
+    g = m.cfg(q)
+    heads = [n for n in g.nodes if n.kind == "cond" and isinstance(n.ast, ast.For) and "file_idx" in ast.unparse(n.ast.target)]
+    opens = [n for n in g.nodes if any(pyfront.call_name(c) == "h5py.File" for c in pyfront.node_calls(n))]
+    if len(heads) != 1 or not opens:
+        raise AnalysisError("%s: per-file loop or h5py.File not found" % q)
+    need = {"file_ts": "file_idx * self._file_cadence_secs",
+            "start_sub_ts": "file_ts // self._subdir_cadence_secs * self._subdir_cadence_secs",
+            "this_file": "os.path.join(subdir, file_basename)"}
+    body = [b for b, l in g.succ[heads[0].id] if l == "T"]
+    for var, want in need.items():
+        defs = [n for n in g.nodes if isinstance(n.ast, ast.Assign) and len(n.ast.targets) == 1 and isinstance(n.ast.targets[0], ast.Name)
+                and n.ast.targets[0].id == var]
+        good = [n for n in defs if norm(ast.unparse(n.ast.value)) == want]
+        others = [n for n in defs if n not in good]
+        if not good or others:
+            x = (others or defs or heads)[0]
+            r.violation(m.rel, q, "%s = %s" % (var, norm(ast.unparse(x.ast.value)) if isinstance(x.ast, ast.Assign) else "?"),
+                        "`%s` is not (only) computed as `%s`" % (var, want), line=x.line)
+            continue
+        skip = [o for o in opens if o.id in g.reach(body, avoid=[n.id for n in good], skip_labels=("exc", "back"))]
+        if skip:
+            r.violation(m.rel, q, "`%s = %s` is not executed on every iteration before the file is opened" % (var, want),
+                        "the location of a file depends on state left over from an earlier group of the same write() call (e.g. a "
+                        "cached sub-directory): a sample whose file lies in another sub-directory than the previous group's is "
+                        "stored where the reader does not look", line=good[0].line)
+        else:
+            r.ok("%s:%s %s `%s = %s`" % (m.rel, good[0].line, q, var, want), "computed on every iteration before the file is opened")
+    r.guard(3)
+    return r
+
+
 def rules(repo=None):
-    return [lambda: r1_exact_placement(repo), lambda: r2_one_formula(repo), lambda: r3_format_agreement(repo)]
+    return [lambda: r1_exact_placement(repo), lambda: r2_one_formula(repo), lambda: r3_format_agreement(repo),
+            lambda: r4_subdir_per_file(repo)]
 
 
 EXPLANATION = (
     "R1: float-taint analysis of the writer's groupby key / file timestamp and of the reader's start_ts/end_ts (true "
     "division, longdouble samples_per_second, float literals are sources; taint survives int()/np.uint64()). R2: both "
     "expressions are normalised as nested floor divisions of integer products and must both equal floor(k*d/(n*cadence)). "
-    "R3: regular-language equality of the file-name and sub-directory formats and inclusion in the listing grammar.")
+    "R3: regular-language equality of the file-name and sub-directory formats and inclusion in the listing grammar. R4: file "
+    "timestamp, sub-directory timestamp and path are recomputed from the group's own file index on every iteration (must-pass).")
 ASSUMPTIONS = ["Python int arithmetic is exact; floor(floor(x/a)/b) = floor(x/(a*b)) for positive integers",
                "strftime field widths for dates within the property's bounds"]
 FILES = ["python/digital_rf/digital_metadata.py", "python/digital_rf/list_drf.py"]
